@@ -56,6 +56,10 @@ def shapes():
     S.append(('cubic-S', lambda k: sp.CubicBezier(0j, (4 + 4j) * k, (0 - 4j) * k, (4 + 0j) * k), False))
     S.append(('arc-circle', lambda k: sp.Arc(0j, (5 + 5j) * k, 0, False, True, (6 + 8j) * k), True))
     S.append(('arc-ellipse', lambda k: sp.Arc(0j, (6 + 3j) * k, 30, True, False, (4 + 2j) * k), False))
+    # the speed vanishes at an end (a handle of zero length): s(t) starts like t^2 / t^3 there
+    S.append(('cubic-zero-start-speed', lambda k: sp.CubicBezier(0j, 0j, (3 + 4j) * k, (8 + 0j) * k), False))
+    S.append(('cubic-zero-end-speed', lambda k: sp.CubicBezier(0j, (3 + 4j) * k, (8 + 0j) * k, (8 + 0j) * k), False))
+    S.append(('quad-zero-start-speed', lambda k: sp.QuadraticBezier((1 + 1j) * k, (1 + 1j) * k, (4 + 5j) * k), False))
     # straight Beziers whose control points lie on the chord in order but are not evenly spaced: straight, yet not traversed at constant speed
     S.append(('cubic-straight-retracted', lambda k: sp.CubicBezier(0j, 0j, (6 + 8j) * k, (6 + 8j) * k), False))
     S.append(('cubic-straight-uneven', lambda k: sp.CubicBezier(0j, (0.6 + 0.8j) * k, (1.2 + 1.6j) * k, (6 + 8j) * k), False))
@@ -227,7 +231,7 @@ def run(ck):
                         if (f == 0 and r != 0) or (f == 1.0 and r != 1):
                             ck.disagree(key='inv_arclength/ends', site=site, what='%s: ilength(%r) = %r' % (name, s, r), case=case, expected=f, observed=r, driver='runs')
                         back = curve.length(0, r) if r > 0 else 0.0
-                        if not (abs(back - s) <= max(1e-12, 1e-11 * L)):
+                        if not (abs(back - s) <= (1e-12 + 16 * math.ulp(L))):
                             ck.disagree(key='inv_arclength/post-condition', site=site,
                                         what='%s scale %g: length(0, ilength(s)) = %r, s = %r' % (name, k, back, s), case=case, expected=s, observed=back, driver='runs')
                         if uniform and not (abs(r - s / L) <= 1e-9):
@@ -254,7 +258,7 @@ def run(ck):
                                     continue
                                 out, probes = run_recorded(curve, s, {})
                                 ck.case(fp=(name, k, 'joint', s, scipy_on), nontrivial=True)
-                                if out[0] != 'ok' or not (0 <= out[1] <= 1) or not (abs(curve.length(0, out[1]) - s) <= max(1e-12, 1e-11 * L)):
+                                if out[0] != 'ok' or not (0 <= out[1] <= 1) or not (abs(curve.length(0, out[1]) - s) <= (1e-12 + 16 * math.ulp(L))):
                                     ck.disagree(key='inv_arclength/at-a-joint-of-a-path', site='svgpathtools/path.py:inv_arclength',
                                                 what='%s scale %g: ilength(%r), s on a joint (L=%r): %s' % (name, k, s, L, out), case={'shape': name, 'scale': k, 's': s},
                                                 expected='a parameter whose arc length is s', observed=str(out), driver='runs')
@@ -280,6 +284,24 @@ def run(ck):
                     ck.disagree(key='inv_arclength/no-ValueError-outside', site='svgpathtools/path.py:inv_arclength',
                                 what='%s: ilength(%r, s_tol=%g) with L=%r gave %s' % (name, s, tol, L, out), case={'shape': name, 's': s, 'tol': tol},
                                 expected='ValueError', observed=str(out), driver='runs')
+    # a coarse request followed by a fine one on the same object (nothing learnt in the first call may limit the accuracy of the second)
+    for name, mk, uniform in shapes()[3:8] + path_shapes()[2:3]:
+        for k in (1.0, 1e3):
+            curve = mk(k)
+            L = curve.length()
+            for f in (0.3, 0.62, 0.91):
+                ck.case(fp=(name, k, 'coarse-then-fine', f), nontrivial=True)
+                try:
+                    curve.ilength(L * f, s_tol=0.05 * L)
+                    r2 = curve.ilength(L * f + 0.01 * L * (0.5 - f))
+                    back = curve.length(0, r2)
+                except Exception as e:      # noqa
+                    r2, back = e, None
+                s2 = L * f + 0.01 * L * (0.5 - f)
+                if isinstance(r2, Exception) or not (abs(back - s2) <= (1e-12 + 16 * math.ulp(L))):
+                    ck.disagree(key='inv_arclength/fine-request-after-a-coarse-one', site='svgpathtools/path.py:inv_arclength',
+                                what='%s scale %g: ilength(s, s_tol=0.05 L) then ilength(%r) = %r, length(0, .) = %r' % (name, k, s2, r2, back), case={'shape': name, 'scale': k, 'frac': f},
+                                expected=s2, observed=repr(back), driver='history')
     # histories: a curve that was measured, edited in place (control point / end point through the Path interface) and possibly reversed answers like a newly built one
     def fresh_like(c_):
         if isinstance(c_, sp.Path):
@@ -314,7 +336,7 @@ def run(ck):
                 got, want = obj.ilength(s_), ref.ilength(s_)
             except Exception as e:      # noqa
                 got, want = e, None
-            if isinstance(got, Exception) or not (abs(got - want) <= 1e-9) or not (abs(ref.length(0, got) - s_) <= max(1e-12, 1e-11 * Lr)):
+            if isinstance(got, Exception) or not (abs(got - want) <= 1e-9) or not (abs(ref.length(0, got) - s_) <= (1e-12 + 16 * math.ulp(Lr))):
                 ck.disagree(key='inv_arclength/after-a-history', site='svgpathtools/path.py:inv_arclength / length caches',
                             what='%s: ilength(%r) = %r, a newly built curve with the same control points answers %r (L = %r)' % (tag, s_, got, want, Lr),
                             case={'history': tag, 'frac': f}, expected=repr(want), observed=repr(got), driver='history')
@@ -355,7 +377,12 @@ def run(ck):
         at = reach.get(i, 0)
         ev = t[min(at, len(t) - 1)]
         stall_loop = ev['e'] == 'probe' and at >= 1 and t[at - 1]['e'] == 'probe' and t[at - 1]['bits'] == ev['bits']
-        key = 'inv_arclength/does-not-terminate' if (t[-1]['e'] == 'raise' or stall_loop) else 'inv_arclength/trace-rejected'
+        if not (t[-1]['e'] == 'raise' or stall_loop):
+            # the probes are not those of a bisection from [0, 1] (Bisect.tla is a model of *this* algorithm): another correct root finder would differ too.  The
+            # clauses of the property - returns, range, end values, the inverse relation, monotonicity, ValueError outside - are checked on every run above.
+            ck.drift('inv_arclength/probes-differ-from-Bisect.tla', 'run %s departs from Bisect_Trace at event %d/%d: %s' % (tmeta[i], at + 1, len(t), {k: v for k, v in ev.items() if k != 'bits'}))
+            continue
+        key = 'inv_arclength/does-not-terminate'
         ck.disagree(key=key, site='svgpathtools/path.py:inv_arclength',
                     what='run %s rejected by Bisect_Trace at event %d/%d: %s' % (tmeta[i], at + 1, len(t), {k: v for k, v in ev.items() if k != 'bits'}),
                     case=tmeta[i], expected='midpoint probe, stall then return', observed={'event': ev, 'n_events': len(t)}, driver='trace')
